@@ -55,8 +55,9 @@ def make_px(rng, n, dense):
     """upper-triangular pixel list (sorted), every value unique"""
     px = []
     v = 1
+    band = 5 if n > 60 else n          # large tables: pixels near the diagonal only, so that short regions still select some
     for i in range(n):
-        for j in range(i, n):
+        for j in range(i, min(n, i + band)):
             if rng.random() < dense:
                 px.append((i, j, v))
             v += 1
@@ -65,10 +66,36 @@ def make_px(rng, n, dense):
     return px
 
 
+UNIT_SCALE = {"k": 10 ** 3, "m": 10 ** 6, "g": 10 ** 9}
+UNITS = ["kb", "k", "Kb", "KB", "K", "kB", "Mb", "M", "mb", "MB", "m", "Gb", "G", "gb", "GB", "g"]
+
+
+def humanize(v, unit, dec, comma=False):
+    """exact decimal spelling of the integer v with a unit suffix and `dec` decimals (3.21kb, 0.004Mb, 1,234.50kb);
+    None when v is not representable that way.  Pure integer arithmetic: nothing here parses or rounds."""
+    scale = UNIT_SCALE[unit[0].lower()]
+    if v is None or v < 0 or (v * 10 ** dec) % scale:
+        return None
+    m = v * 10 ** dec // scale
+    ip, fp = divmod(m, 10 ** dec)
+    ips = f"{ip:,}" if comma else str(ip)
+    return f"{ips}{unit}" if dec == 0 else f"{ips}.{fp:0{dec}d}{unit}"
+
+
+def is_string_how(how):
+    return how in ("str", "strc") or how.startswith("u|")
+
+
 def spell(names, reg):
     """region descriptor (c, s, e, how) -> the object handed to the API"""
     c, s, e, how = reg
     name = names[c] if 0 <= c < len(names) else "nope"
+    if how.startswith("u|"):          # "u|<unit>|<decimals>|<comma 0/1>": unit-suffixed UCSC string; a coordinate that is not representable stays plain
+        _, unit, dec, comma = how.split("|")
+        ss = humanize(s, unit, int(dec), comma == "1") or str(s)
+        if e is None:
+            return f"{name}:{ss}-"
+        return f"{name}:{ss}-{humanize(e, unit, int(dec), comma == '1') or str(e)}"
     if how == "tuple":
         return (name, s, e)
     if how == "np":
@@ -123,6 +150,93 @@ def regions_large(rng, blocks, n):
             regs.append((c, s, e, rng.choice(["tuple", "str", "np", "strc"])))
         regs += [(c, None, None, "str"), (c, L, L, "tuple"), (c, 0, 0, "tuple"), (c, 0, L + 1, "tuple"), (c, rng.choice(pts), None, "str")]
     return regs
+
+
+def unit_region(rng, k, c, blk, v, L):
+    """one region with bin edge v as an end point, spelled with a rotating unit / decimals / comma choice"""
+    unit = UNITS[k % len(UNITS)]
+    decs = [d for d in (2, 3, 2, 3, 1, 4, 0, 6) if humanize(v, unit, d) is not None]
+    if not decs:
+        unit = ("kb", "Kb", "k", "K")[k % 4]
+        decs = [3]
+    dec = decs[k % len(decs)] if k % 3 else decs[0]
+    how = f"u|{unit}|{dec}|{1 if k % 7 == 0 else 0}"
+    starts = [b[1] for b in blk]
+    nxt = [s_ for s_ in starts if s_ > v] + [L]
+    prv = [s_ for s_ in starts if s_ < v]
+    shape = k % 6
+    if shape == 0 and v < L:
+        r = (c, v, None)                                    # open end
+    elif shape == 1 and prv:
+        r = (c, prv[-1], v)                                 # the edge as region end
+    elif shape == 2:
+        r = (c, v, v)                                       # empty range on the edge
+    elif shape == 3 and len(nxt) > 1:
+        r = (c, v, nxt[1])                                  # two bins
+    else:
+        r = (c, v, nxt[0]) if v < L else (c, prv[-1] if prv else 0, v)
+    return r + (how,)
+
+
+def unit_jobs(rng, thorough):
+    """region STRINGS with unit suffixes whose coordinates are bin edges.
+    (a) fixed-width tables (widths 10 / 100 / 1000, long chromosomes): every edge (a sample of the wider ones in the quick tier);
+    (b) variable-width sweep tables whose edges are drawn from the universe of all 2- and 3-decimal mantissas x k/M/G,
+        half of them from the mantissas on which binary floating-point scaling and exact scaling differ."""
+    jobs = []
+    k = 0
+    fixed = [([[10] * 260, [10] * 4 + [7]], None), ([[100] * 120 + [60], [100] * 2], 60), ([[1000] * 120, [1000] * 2 + [400]], 60)]
+    for widths, nsample in fixed:
+        blocks = blocks_from_widths(widths)
+        allregs = []
+        for c, blk in enumerate(blocks):
+            L = blk[-1][2]
+            edges = sorted({0, L} | {b[1] for b in blk})
+            if nsample and not thorough and len(edges) > nsample:
+                edges = sorted(rng.sample(edges, nsample))
+            for v in edges:
+                k += 1
+                r = unit_region(rng, k, c, blk, v, L)
+                allregs.append(r)
+                if k % 4 == 0:
+                    allregs.append(r[:3] + ("tuple",))
+            allregs += [(c, None, None, "str"), (c, 0, L + 1000, "u|kb|3|0")]
+        for a in range(0, len(allregs), 70):          # several jobs per table: the model evaluation parallelises per job
+            jobs.append((widths, allregs[a:a + 70], 0.25 if thorough else 0.12, "units"))
+    # (b) sweep tables
+    universe, traps = [], []
+    for dec in (2, 3):
+        for u, scale in (("k", 10 ** 3), ("M", 10 ** 6), ("G", 10 ** 9)):
+            for m in range(1, 10 ** 5, 1 if thorough else 7):
+                if (m * scale) % 10 ** dec:
+                    continue
+                v = m * scale // 10 ** dec
+                if v >= 2 ** 31 - 2:
+                    break
+                universe.append(v)
+                if int(float(f"{m // 10 ** dec}.{m % 10 ** dec:0{dec}d}") * scale) != v:     # binary scaling differs from exact scaling
+                    traps.append(v)
+    for _ in range(60 if thorough else 20):
+        cs = []
+        for _c in range(rng.choice([1, 1, 2])):
+            top = rng.choice([10 ** 4, 10 ** 5, 10 ** 7, 2 ** 31 - 2])
+            pool_t = [v for v in traps if v < top]
+            pool_u = [v for v in universe if v < top]
+            edges = sorted(set(rng.sample(pool_t, min(len(pool_t), 14)) + rng.sample(pool_u, min(len(pool_u), 14))))
+            cs.append([b_ - a_ for a_, b_ in zip([0] + edges[:-1], edges)] + [rng.choice([1, 10, 1000])])
+        blocks = blocks_from_widths(cs)
+        regs = []
+        for c, blk in enumerate(blocks):
+            L = blk[-1][2]
+            for v in sorted({b[1] for b in blk} | {L}):
+                k += 1
+                r = unit_region(rng, k, c, blk, v, L)
+                regs.append(r)
+                if k % 4 == 0:
+                    regs.append(r[:3] + ("tuple",))
+            regs.append((c, None, None, "str"))
+        jobs.append((cs, regs, 0.3 if thorough else 0.15, "units"))
+    return jobs
 
 
 def small_tables(thorough):
@@ -272,6 +386,15 @@ def run_api(T, api, reg, reg2=None):
             r2 = spell(T.names, reg2)
             st, v = call(lambda: sel.fetch(r, r2))
         return st if st != "ok" else [[int(a), int(b_), int(c)] for a, b_, c in zip(v["bin1_id"], v["bin2_id"], v["count"])]
+    if api in ("dump", "dump2"):         # cooler dump -r REGION [-r2 REGION2]  (region strings only)
+        from click.testing import CliRunner
+        from cooler.cli import cli
+        args = ["dump", "-r", r] + (["-r2", spell(T.names, reg2)] if reg2 is not None else []) + [T.uri]
+        res = CliRunner().invoke(cli, args)
+        if res.exit_code != 0:
+            st, _ = call(lambda: (_ for _ in ()).throw(res.exception)) if isinstance(res.exception, Exception) else ("exit", None)
+            return st
+        return [[int(x) for x in ln.split("\t")] for ln in res.output.strip().splitlines() if ln]
     if api == "segfetch":
         st, v = call(lambda: T.gs.fetch(r))
         return st if st != "ok" else T.bins_rows(v)
@@ -342,6 +465,7 @@ def oracle_call(blocks, px, full, api, reg, reg2, got):
     """True = the property holds for this answer of the implementation (None-resolving regions are outside the quantifier)"""
     api = api.partition(":")[0]
     r = resolve(blocks, reg)
+    api = {"dump": "mpixels", "dump2": "mpixels2"}.get(api, api)
     if api == "mpixels2":
         r2 = resolve(blocks, reg2)
         if r is None or r2 is None:
@@ -406,9 +530,17 @@ FORMS = {"pixels": ["", ":join"], "matrix": ["", ":sparse"]}
 PAIR_APIS = ["matrix2", "matrix2:sparse", "mpixels2"]
 
 
-def fetch_calls(i):
-    """the fetch APIs for region number i, with a rotating call form (dense/sparse matrix, plain/joined pixels)"""
-    return [api + FORMS.get(api, [""])[i % len(FORMS.get(api, [""]))] for api in FETCH_APIS]
+def fetch_calls(i, reg):
+    """the fetch APIs for region number i, with a rotating call form (dense/sparse matrix, plain/joined pixels);
+    string regions also go through `cooler dump -r`"""
+    out = [api + FORMS.get(api, [""])[i % len(FORMS.get(api, [""]))] for api in FETCH_APIS]
+    return out + (["dump"] if is_string_how(reg[3]) else [])
+
+
+def pair_api(k, ra, rb):
+    if is_string_how(ra[3]) and is_string_how(rb[3]) and k % 2 == 0:
+        return "dump2"
+    return PAIR_APIS[k % 3]
 
 
 # ------------------------------------------------------------------ run
@@ -449,21 +581,30 @@ def run(ctx):
         blocks = blocks_from_widths(widths)
         jobs.append((widths, regions_large(rng, blocks, 12), 0.25, "bigcoord"))
 
+    jobs += unit_jobs(rng, thorough)        # unit-suffixed region strings on bin edges (widths 10 / 100 / 1000 / variable sweep tables)
+
     # per table: pixel list (from a recorded seed), the regions that also go through the fetch APIs, region pairs
     plan = []
     for widths, regs, sh, label in jobs:
         n = sum(len(w) for w in widths)
         pxseed = rng.randrange(1 << 30)
         dense = (0.6 if n <= 12 else 0.25) if (label != "corpus" or len(plan) % 2 == 0) else 0.08   # sparse: chromosomes without pixels
+        if n > 60:
+            dense = 0.5                                                           # banded, see make_px
         px = make_px(random.Random(pxseed), n, dense)
-        fidx = [i for i in range(len(regs)) if rng.random() < sh]
+        if label == "units":   # dense results stay small: only short string regions go through the fetch APIs
+            wmax = max(max(w) for w in widths)
+            fidx = [i for i, r in enumerate(regs) if r[3] != "tuple" and r[1] is not None and r[2] is not None
+                    and r[2] - r[1] <= 3 * wmax and rng.random() < sh]
+        else:
+            fidx = [i for i in range(len(regs)) if rng.random() < sh]
         pairs = []
         for i in fidx:
             if rng.random() < 0.5:
-                pairs.append((regs[i], regs[rng.randrange(len(regs))]))
+                pairs.append((regs[i], regs[rng.choice(fidx) if label == "units" else rng.randrange(len(regs))]))
         calls = [("extent", reg, None) for reg in regs]
-        calls += [(api, regs[i], None) for i in fidx for api in fetch_calls(i)]
-        calls += [(PAIR_APIS[k % 3], ra, rb) for k, (ra, rb) in enumerate(pairs)]
+        calls += [(api, regs[i], None) for i in fidx for api in fetch_calls(i, regs[i])]
+        calls += [(pair_api(k, ra, rb), ra, rb) for k, (ra, rb) in enumerate(pairs)]
         plan.append((widths, pxseed, px, regs, fidx, pairs, label, calls, dense))
 
     exprs = [model_expr(blocks_from_widths(w), px, regs, fidx, pairs) for (w, _s, px, regs, fidx, pairs, _l, _c, _d) in plan]
@@ -499,7 +640,7 @@ def run(ctx):
         mp2 = {k: unopt(m) for k, m in enumerate(mpairs)}
         pair_no = 0
         pos = 0
-        order = [(i, "extent") for i in range(len(regs))] + [(i, api) for i in fidx for api in fetch_calls(i)]
+        order = [(i, "extent") for i in range(len(regs))] + [(i, api) for i in fidx for api in fetch_calls(i, regs[i])]
         for (i, fullapi), got in zip(order, got_all):
             api = fullapi.partition(":")[0]
             reg = regs[i]
@@ -524,7 +665,7 @@ def run(ctx):
             elif api == "matrix":
                 sub = full[me[0]:me[1], me[0]:me[1]]
                 exp = sub.tolist() + [list(sub.shape)]
-            elif api == "mpixels":
+            elif api in ("mpixels", "dump"):
                 exp = [[a, b_, v] for a, b_, v in px if me[0] <= a < me[1] and me[0] <= b_ < me[1]]
             else:
                 off = sum(len(b) for b in blocks[:reg[0]])
@@ -534,7 +675,7 @@ def run(ctx):
             if not oracle_call(blocks, px, full, api, reg, None, got):
                 ctx.fail(case, {"got": got if len(str(got)) < 600 else str(got)[:600], "resolved_region": list(r)}, None)
         for k, ((ra, rb), got) in enumerate(zip(pairs, got_all[pos:])):
-            papi = PAIR_APIS[k % 3]
+            papi = pair_api(k, ra, rb)
             case = dict(tcase, api=papi, region=list(ra), region2=list(rb))
             r1, r2 = resolve(blocks, ra), resolve(blocks, rb)
             ctx.case(case, nontrivial=r1 is not None and r2 is not None and multi, kind=papi + ":" + label)
@@ -542,7 +683,7 @@ def run(ctx):
             mb = mp2[k]
             if mb is None:
                 exp = "ValueError"
-            elif papi == "mpixels2":
+            elif papi in ("mpixels2", "dump2"):
                 exp = [[a, b_, v] for a, b_, v in px if mb[0] <= a < mb[1] and mb[2] <= b_ < mb[3]]
             else:
                 sub = full[mb[0]:mb[1], mb[2]:mb[3]]
